@@ -341,18 +341,65 @@ theorem safe_tryOp {R P : Tree → Prop} {op : Op} {Q : Unit → Tree → Prop} 
     rw [hx] at this
     cases f <;> exact this
 
-/-- a log line changes nothing -/
+theorem doOp_log_cases (s : St) :
+    (∃ s', doOp .logLine s = .ok () s' ∧ s'.t = s.t ∧ s'.inj = s.inj ∧ s'.n = s.n + 1) ∨
+    (∃ e s', doOp .logLine s = .err (.io e) s' ∧ s'.t = s.t ∧ s'.inj = s.inj ∧ s'.n = s.n + 1) ∨
+    (∃ s', doOp .logLine s = .crash s' ∧ s'.t = s.t) := by
+  unfold doOp stepOp
+  simp only [execOp]
+  cases hi : s.inj with
+  | none => exact Or.inl ⟨_, rfl, rfl, by simp [Exec.rec, hi], rfl⟩
+  | fail j e =>
+    by_cases hj : j = s.n
+    · simp only [hj, if_true]; exact Or.inr (Or.inl ⟨e, _, rfl, rfl, by simp [Exec.rec, hi, hj], rfl⟩)
+    · simp only [hj, if_false]; exact Or.inl ⟨_, rfl, rfl, by simp [Exec.rec, hi], rfl⟩
+  | crashBefore j =>
+    by_cases hj : j = s.n
+    · simp only [hj, if_true]; exact Or.inr (Or.inr ⟨_, rfl, rfl⟩)
+    · simp only [hj, if_false]; exact Or.inl ⟨_, rfl, rfl, by simp [Exec.rec, hi], rfl⟩
+  | crashAfter j =>
+    by_cases hj : j = s.n
+    · simp only [hj, if_true]; exact Or.inr (Or.inr ⟨_, rfl, rfl⟩)
+    · simp only [hj, if_false]; exact Or.inl ⟨_, rfl, rfl, by simp [Exec.rec, hi], rfl⟩
+  | crashMid j =>
+    by_cases hj : j = s.n
+    · simp only [hj, if_true]; exact Or.inr (Or.inr ⟨_, rfl, rfl⟩)
+    · simp only [hj, if_false]; exact Or.inl ⟨_, rfl, rfl, by simp [Exec.rec, hi], rfl⟩
+
+/-- a log line whose error is ignored: it ends normally or the process is killed, and the tree is the same -/
+theorem ignored_log_cases (s : St) :
+    (∃ s', ignoreErr (doOp .logLine) s = .ok () s' ∧ s'.t = s.t ∧ s'.inj = s.inj ∧ s'.n = s.n + 1) ∨
+    (∃ s', ignoreErr (doOp .logLine) s = .crash s' ∧ s'.t = s.t) := by
+  have hunf : ignoreErr (doOp .logLine) s =
+      M.bind (Exec.tryCatch (doOp .logLine)) (fun _ => (pure () : M Unit)) s := rfl
+  rw [hunf]
+  unfold M.bind Exec.tryCatch
+  rcases doOp_log_cases s with ⟨s', h, h1, h2, h3⟩ | ⟨e, s', h, h1, h2, h3⟩ | ⟨s', h, h1⟩
+  · rw [h]; exact Or.inl ⟨s', rfl, h1, h2, h3⟩
+  · rw [h]; exact Or.inl ⟨s', rfl, h1, h2, h3⟩
+  · rw [h]; exact Or.inr ⟨s', rfl, h1⟩
+
+/-- a log line changes nothing (both variants: error propagated / error ignored) -/
 theorem safe_logM {R P : Tree → Prop} (cfg : Cfg) (h : ∀ t, P t → R t) : Safe R P (logM cfg) (fun _ t => P t) := by
-  unfold logM
+  unfold logM logMF
   by_cases hl : cfg.log.isSome = true
   · simp only [hl, if_true]
-    refine safe_doOp .logLine h ?_ ?_
-    · intro t t' hp he
-      simp only [execOp] at he
-      cases he
-      exact ⟨hp, h _ hp⟩
-    · intro t hp
-      exact h _ hp
+    cases ExecFlags.logErrorsIgnored with
+    | false =>
+      simp only [Bool.false_eq_true, if_false]
+      refine safe_doOp .logLine h ?_ ?_
+      · intro t t' hp he
+        simp only [execOp] at he
+        cases he
+        exact ⟨hp, h _ hp⟩
+      · intro t hp
+        exact h _ hp
+    | true =>
+      simp only [if_true]
+      intro s hp
+      rcases ignored_log_cases s with ⟨s', h1, h2, _, _⟩ | ⟨s', h1, h2⟩
+      · rw [h1]; show P s'.t; rw [h2]; exact hp
+      · rw [h1]; show R s'.t; rw [h2]; exact h _ hp
   · simp only [hl, Bool.false_eq_true, if_false]
     exact safe_pure () (fun _ hp => hp)
 
@@ -642,14 +689,23 @@ theorem safe0_doOp {P : Tree → Prop} {Q : Unit → Tree → Prop} (op : Op)
   | error e => trivial
 
 theorem safe0_logM {P : Tree → Prop} (cfg : Cfg) : Safe0 P (logM cfg) (fun _ t => P t) := by
-  unfold logM
+  unfold logM logMF
   by_cases hl : cfg.log.isSome = true
   · simp only [hl, if_true]
-    refine safe0_doOp .logLine ?_
-    intro t t' hp he
-    simp only [execOp] at he
-    cases he
-    exact hp
+    cases ExecFlags.logErrorsIgnored with
+    | false =>
+      simp only [Bool.false_eq_true, if_false]
+      refine safe0_doOp .logLine ?_
+      intro t t' hp he
+      simp only [execOp] at he
+      cases he
+      exact hp
+    | true =>
+      simp only [if_true]
+      intro s hi hp
+      rcases ignored_log_cases s with ⟨s', h1, h2, h3, _⟩ | ⟨s', h1, h2⟩
+      · rw [h1]; show _ ∧ P s'.t; rw [h2, h3]; exact ⟨hi, hp⟩
+      · rw [h1]; trivial
   · simp only [hl, Bool.false_eq_true, if_false]
     exact safe0_pure () (fun _ hp => hp)
 
@@ -954,20 +1010,20 @@ theorem safe0_repeat_log {P : Tree → Prop} (cfg : Cfg) : ∀ n, Safe0 P (Exec.
     exact safe0_bind (safe0_logM cfg) (fun _ => ih)
 
 /-- fault-free, the operation-level rename loop computes exactly `Apply.renamePhase` (whenever it ends normally) -/
-theorem safe0_renameLoop (cfg : Cfg) : ∀ (rs : List Ren) (perf : List (Path × Path)) (t0 : Tree),
+theorem safe0_renameLoop (real : Bool) (cfg : Cfg) : ∀ (rs : List Ren) (perf exec : List (Path × Path)) (t0 : Tree),
     FreeAlong t0 perf rs →
-    Safe0 (fun t => t = t0) (renameLoop cfg perf rs)
+    Safe0 (fun t => t = t0) (renameLoopF real cfg perf exec rs)
       (fun perf' t => renamePhase t0 perf rs = { outcome := .ok, tree := t, performed := perf' }) := by
   intro rs
   induction rs with
   | nil =>
-    intro perf t0 _
-    unfold renameLoop
+    intro perf exec t0 _
+    unfold renameLoopF
     exact safe0_pure perf (fun t h => by subst h; rfl)
   | cons r rs ih =>
-    intro perf t0 hfree
+    intro perf exec t0 hfree
     obtain ⟨hdest, hnext⟩ := hfree
-    unfold renameLoop
+    unfold renameLoopF
     refine safe0_bind (safe0_repeat_log cfg _) (fun _ => ?_)
     dsimp only
     refine safe0_tryCatch
@@ -982,9 +1038,9 @@ theorem safe0_renameLoop (cfg : Cfg) : ∀ (rs : List Ren) (perf : List (Path ×
     · refine safe0_tryCatch (Q := fun _ t => renameTS t0 (rebase perf r.path) (trailingSlash perf r.path)
           (rebase perf r.newPath) (trailingSlash perf r.newPath) = .ok t) (safe0_logM cfg) ?_ ?_
       · intro s hi hp
-        have h := ih (perf ++ [(r.path, rebase perf r.newPath)]) s.t (hnext _ hp) s hi rfl
-        show Sat0 _ (renameLoop cfg (perf ++ [(r.path, rebase perf r.newPath)]) rs s)
-        cases hx : renameLoop cfg (perf ++ [(r.path, rebase perf r.newPath)]) rs s with
+        have h := ih (perf ++ [(r.path, rebase perf r.newPath)]) (exec ++ [(rebase perf r.path, rebase perf r.newPath)]) s.t (hnext _ hp) s hi rfl
+        show Sat0 _ (renameLoopF real cfg (perf ++ [(r.path, rebase perf r.newPath)]) (exec ++ [(rebase perf r.path, rebase perf r.newPath)]) rs s)
+        cases hx : renameLoopF real cfg (perf ++ [(r.path, rebase perf r.newPath)]) (exec ++ [(rebase perf r.path, rebase perf r.newPath)]) rs s with
         | ok a s' =>
           rw [hx] at h
           show _ ∧ _
@@ -1124,14 +1180,14 @@ theorem safe_repeat_log {R : Tree → Prop} (cfg : Cfg) : ∀ n, Safe R R (Exec.
     exact safe_bind (safe_logM cfg (fun _ h => h)) (fun _ => ih)
 
 /-- the rename phase with its rollback, under EVERY fault and crash point: no node (content, mode) is ever altered -/
-theorem safe_renameLoop {orig : Tree} (cfg : Cfg) : ∀ (rs : List Ren) (perf : List (Path × Path)),
-    Safe (NodesKept orig) (NodesKept orig) (renameLoop cfg perf rs) (fun _ t => NodesKept orig t) := by
+theorem safe_renameLoop {orig : Tree} (real : Bool) (cfg : Cfg) : ∀ (rs : List Ren) (perf exec : List (Path × Path)),
+    Safe (NodesKept orig) (NodesKept orig) (renameLoopF real cfg perf exec rs) (fun _ t => NodesKept orig t) := by
   intro rs
   induction rs with
-  | nil => intro perf; unfold renameLoop; exact safe_pure perf (fun _ h => h)
+  | nil => intro perf exec; unfold renameLoopF; exact safe_pure perf (fun _ h => h)
   | cons r rs ih =>
-    intro perf
-    unfold renameLoop
+    intro perf exec
+    unfold renameLoopF
     refine safe_bind (safe_repeat_log cfg _) (fun _ => ?_)
     dsimp only
     refine safe_bind (safe_tryCatch (Q := fun _ t => NodesKept orig t)
@@ -1139,7 +1195,7 @@ theorem safe_renameLoop {orig : Tree} (cfg : Cfg) : ∀ (rs : List Ren) (perf : 
     cases res with
     | some e =>
       refine safe_bind (safe_logM cfg (fun _ h => h)) (fun _ => ?_)
-      refine safe_bind (safe_rollbackM cfg perf) (fun _ => ?_)
+      refine safe_bind (safe_rollbackM cfg _) (fun _ => ?_)
       exact safe_throw _ (fun _ h => h)
     | none =>
       refine safe_bind (safe_tryCatch (Q := fun _ t => NodesKept orig t) (safe_logM cfg (fun _ h => h))) (fun res2 => ?_)
@@ -1148,7 +1204,7 @@ theorem safe_renameLoop {orig : Tree} (cfg : Cfg) : ∀ (rs : List Ren) (perf : 
         refine safe_bind (safe_logM cfg (fun _ h => h)) (fun _ => ?_)
         refine safe_bind (safe_rollbackM cfg _) (fun _ => ?_)
         exact safe_throw _ (fun _ h => h)
-      | none => exact ih _
+      | none => exact ih _ _
 
 -- recording: history entry and stored plan ----------------------------------------------------------------------------
 
@@ -1472,10 +1528,17 @@ theorem reports_doOp (k : Nat) (op : Op) : Reports k (doOp op) := by
       exact ⟨by simp [Exec.rec]; omega, rfl⟩
     | error e' => rw [he] at h; cases h
 
-theorem reports_logM (k : Nat) (cfg : Cfg) : Reports k (logM cfg) := by
-  unfold logM
+/-- whether log-write errors count as failures of the command: they do when `state.log(…)?` propagates them, and there
+    are none when the command has no log file -/
+def LogReports (cfg : Cfg) : Prop := ExecFlags.logErrorsIgnored = false ∨ cfg.log.isSome = false
+
+theorem reports_logM (k : Nat) (cfg : Cfg) (hlog : LogReports cfg) : Reports k (logM cfg) := by
+  unfold logM logMF
   by_cases hl : cfg.log.isSome = true
-  · simp only [hl, if_true]; exact reports_doOp k _
+  · simp only [hl, if_true]
+    rcases hlog with h | h
+    · rw [h]; simp only [Bool.false_eq_true, if_false]; exact reports_doOp k _
+    · rw [hl] at h; cases h
   · simp only [hl, Bool.false_eq_true, if_false]; exact reports_pure k ()
 
 /-- `if let Err(e) = x() { …; return Err(e) }`: the handler re-raises, so only the normal end of `x` continues -/
@@ -1517,15 +1580,15 @@ theorem reports_replaceFileF (k : Nat) (clean : Bool) (f : Path) (c' : Bytes) (m
     exact reports_tryCatch (reports_replaceFile k f c' m) (reports_pure k ())
       (fun e s b s' => bind_throw_ne_ok _ _ _ _ _)
 
-theorem reports_editOne (k : Nat) (clean : Bool) (cfg : Cfg) (hs : List Hunk) (f : Path) (c : Bytes) (m : Nat) :
+theorem reports_editOne (k : Nat) (clean : Bool) (cfg : Cfg) (hlog : LogReports cfg) (hs : List Hunk) (f : Path) (c : Bytes) (m : Nat) :
     Reports k (editOneF clean cfg hs f c m) := by
   unfold editOneF
-  refine reports_bind (reports_logM k cfg) (fun _ => ?_)
+  refine reports_bind (reports_logM k cfg hlog) (fun _ => ?_)
   cases Edits.applyEdits c (editsFor hs f) with
   | error e => cases e <;> exact reports_throw k _
-  | ok c' => exact reports_bind (reports_replaceFileF k clean f c' m) (fun _ => reports_logM k cfg)
+  | ok c' => exact reports_bind (reports_replaceFileF k clean f c' m) (fun _ => reports_logM k cfg hlog)
 
-theorem reports_contentLoop (k : Nat) (clean : Bool) (cfg : Cfg) (hs : List Hunk) : ∀ fs : List Path,
+theorem reports_contentLoop (k : Nat) (clean : Bool) (cfg : Cfg) (hlog : LogReports cfg) (hs : List Hunk) : ∀ fs : List Path,
     Reports k (contentLoopF clean cfg hs fs) := by
   intro fs
   induction fs with
@@ -1543,28 +1606,28 @@ theorem reports_contentLoop (k : Nat) (clean : Bool) (cfg : Cfg) (hs : List Hunk
         by_cases hv : (!Utf8.valid c) = true
         · simp only [hv, if_true]; exact reports_throw k _
         · simp only [hv, Bool.false_eq_true, if_false]
-          exact reports_tryCatch (reports_editOne k clean cfg hs f c m) ih
+          exact reports_tryCatch (reports_editOne k clean cfg hlog hs f c m) ih
             (fun e s b s' => bind_ne_ok _ _ _ _ _ (fun _ s1 => bind_throw_ne_ok _ _ _ _ _))
 
-theorem reports_repeat_log (k : Nat) (cfg : Cfg) : ∀ n, Reports k (Exec.repeatM n (logM cfg)) := by
+theorem reports_repeat_log (k : Nat) (cfg : Cfg) (hlog : LogReports cfg) : ∀ n, Reports k (Exec.repeatM n (logM cfg)) := by
   intro n
   induction n with
   | zero => unfold Exec.repeatM; exact reports_pure k ()
-  | succ n ih => unfold Exec.repeatM; exact reports_bind (reports_logM k cfg) (fun _ => ih)
+  | succ n ih => unfold Exec.repeatM; exact reports_bind (reports_logM k cfg hlog) (fun _ => ih)
 
-theorem reports_renameLoop (k : Nat) (cfg : Cfg) : ∀ (rs : List Ren) (perf : List (Path × Path)),
-    Reports k (renameLoop cfg perf rs) := by
+theorem reports_renameLoop (k : Nat) (real : Bool) (cfg : Cfg) (hlog : LogReports cfg) : ∀ (rs : List Ren) (perf exec : List (Path × Path)),
+    Reports k (renameLoopF real cfg perf exec rs) := by
   intro rs
   induction rs with
-  | nil => intro perf; unfold renameLoop; exact reports_pure k perf
+  | nil => intro perf exec; unfold renameLoopF; exact reports_pure k perf
   | cons r rs ih =>
-    intro perf
-    unfold renameLoop
-    refine reports_bind (reports_repeat_log k cfg _) (fun _ => ?_)
+    intro perf exec
+    unfold renameLoopF
+    refine reports_bind (reports_repeat_log k cfg hlog _) (fun _ => ?_)
     dsimp only
-    refine reports_tryCatch (reports_bind (reports_logM k cfg) (fun _ => reports_doOp k _)) ?_
+    refine reports_tryCatch (reports_bind (reports_logM k cfg hlog) (fun _ => reports_doOp k _)) ?_
       (fun e s b s' => bind_ne_ok _ _ _ _ _ (fun _ s1 => bind_throw_ne_ok _ _ _ _ _))
-    exact reports_tryCatch (reports_logM k cfg) (ih _)
+    exact reports_tryCatch (reports_logM k cfg hlog) (ih _ _)
       (fun e s b s' => bind_ne_ok _ _ _ _ _ (fun _ s1 => bind_throw_ne_ok _ _ _ _ _))
 
 -- no panic ---------------------------------------------------------------------------------------------------------------
@@ -1636,9 +1699,15 @@ theorem np_tryCatch {x : M Unit} (hx : NoPanic x) : NoPanic (Exec.tryCatch x) :=
     | _ => cases h
 
 theorem np_logM (cfg : Cfg) : NoPanic (logM cfg) := by
-  unfold logM
+  unfold logM logMF
   by_cases hl : cfg.log.isSome = true
-  · simp only [hl, if_true]; exact np_doOp _
+  · simp only [hl, if_true]
+    cases ExecFlags.logErrorsIgnored with
+    | false => simp only [Bool.false_eq_true, if_false]; exact np_doOp _
+    | true =>
+      simp only [if_true]
+      intro s s' h
+      rcases ignored_log_cases s with ⟨s1, h1, _⟩ | ⟨s1, h1, _⟩ <;> rw [h1] at h <;> cases h
   · simp only [hl, Bool.false_eq_true, if_false]; exact np_pure ()
 
 theorem np_writeAll (p : Path) (c : Bytes) : NoPanic (writeAll p c) := by
@@ -1749,17 +1818,17 @@ theorem np_repeat_log (cfg : Cfg) : ∀ n, NoPanic (Exec.repeatM n (logM cfg)) :
   | zero => unfold Exec.repeatM; exact np_pure ()
   | succ n ih => unfold Exec.repeatM; exact np_bind (np_logM cfg) (fun _ => ih)
 
-theorem np_renameLoop (cfg : Cfg) : ∀ (rs : List Ren) (perf : List (Path × Path)), NoPanic (renameLoop cfg perf rs) := by
+theorem np_renameLoop (real : Bool) (cfg : Cfg) : ∀ (rs : List Ren) (perf exec : List (Path × Path)), NoPanic (renameLoopF real cfg perf exec rs) := by
   intro rs
   induction rs with
-  | nil => intro perf; unfold renameLoop; exact np_pure perf
+  | nil => intro perf exec; unfold renameLoopF; exact np_pure perf
   | cons r rs ih =>
-    intro perf
-    unfold renameLoop
+    intro perf exec
+    unfold renameLoopF
     refine np_bind (np_repeat_log cfg _) (fun _ => ?_)
     dsimp only
     refine np_tryCatch_bind (np_bind (np_logM cfg) (fun _ => np_doOp _)) ?_ (fun e he => ?_)
-    · refine np_tryCatch_bind (np_logM cfg) (ih _) (fun e he => ?_)
+    · refine np_tryCatch_bind (np_logM cfg) (ih _ _) (fun e he => ?_)
       exact np_bind (np_logM cfg) (fun _ => np_bind (np_rollbackM cfg _) (fun _ => np_throw e he))
     · exact np_bind (np_logM cfg) (fun _ => np_bind (np_rollbackM cfg _) (fun _ => np_throw e he))
 
@@ -1987,5 +2056,140 @@ theorem safe_acquire_link (stale cleans : Bool) (l0 : Option Node) :
   cases r with
   | none => exact safe_pure () (fun _ h => h)
   | some e => exact safe_throw _ (fun _ h => h)
+
+-- a rename onto a free name is undone by the opposite rename ------------------------------------------------------------
+
+theorem subst_base (a b : Path) : subst a b a = b := by
+  have := subst_append a b []
+  simpa using this
+
+/-- `rename a b` onto a free name `b` under which nothing lives, followed by `rename b a`, gives back the SAME tree -/
+theorem rename_inverse {t t' : Tree} {a b : Path} (h : rename t a b = .ok t') (hab : a ≠ b)
+    (hfree : lookup t b = none) (hunder : ∀ e ∈ t, pre b e.1 = false) (hpar : parentOk t' a = .ok ()) :
+    rename t' b a = .ok t := by
+  unfold rename at h
+  cases hla : lookup t a with
+  | none => simp [hla] at h
+  | some na =>
+    simp only [hla] at h
+    cases hp : parentOk t b with
+    | error e => simp [hp] at h
+    | ok u =>
+      have habb : (a == b) = false := by simpa using hab
+      simp only [hp, habb, Bool.false_eq_true, if_false] at h
+      by_cases hpre : pre a b = true
+      · simp [hpre] at h
+      · simp only [hpre, Bool.false_eq_true, if_false, hfree] at h
+        cases h
+        -- facts about the keys
+        obtain ⟨ea, hea, heak⟩ := mem_of_lookup_some hla
+        have hba : pre b a = false := by rw [← heak]; exact hunder ea hea
+        have hFa : subst a b a = b := subst_base a b
+        have hlb : lookup (t.map (fun e => (subst a b e.1, e.2))) b = some na := by
+          have := lookup_map_inj (subst a b) t a (by
+            intro e he hEq
+            rw [hFa] at hEq
+            cases hq : pre a e.1 with
+            | true =>
+              obtain ⟨r, hr⟩ := pre_iff.1 hq
+              rw [hr, subst_append] at hEq
+              have : r = [] := by
+                have := congrArg List.length hEq
+                simpa using this
+              rw [hr, this]; simp
+            | false =>
+              rw [subst_of_not_pre hq] at hEq
+              have := hunder e he
+              rw [hEq, pre_refl] at this
+              cases this)
+          rw [hFa] at this
+          rw [this]; exact hla
+        have hla' : lookup (t.map (fun e => (subst a b e.1, e.2))) a = none := by
+          apply lookup_map_none
+          intro e he hEq
+          cases hq : pre a e.1 with
+          | true =>
+            obtain ⟨r, hr⟩ := pre_iff.1 hq
+            rw [hr, subst_append] at hEq
+            have : pre b a = true := pre_iff.2 ⟨r, hEq.symm⟩
+            rw [hba] at this; cases this
+          | false =>
+            rw [subst_of_not_pre hq] at hEq
+            rw [hEq, pre_refl] at hq
+            cases hq
+        unfold rename
+        have hbaa : (b == a) = false := by simpa using fun h : b = a => hab h.symm
+        simp only [hlb, hpar, hbaa, Bool.false_eq_true, if_false, hba, hla']
+        congr 1
+        rw [List.map_map]
+        conv => rhs; rw [← List.map_id t]
+        apply List.map_congr_left
+        intro e he
+        simp only [Function.comp, id]
+        cases hq : pre a e.1 with
+        | true =>
+          obtain ⟨r, hr⟩ := pre_iff.1 hq
+          have : subst b a (subst a b e.1) = e.1 := by rw [hr, subst_append, subst_append]
+          rw [this]
+        | false =>
+          rw [subst_of_not_pre hq, subst_of_not_pre (hunder e he)]
+
+/-- execute a list of renames in order -/
+def execAll : Tree → List (Path × Path) → Option Tree
+  | t, [] => some t
+  | t, (a, b) :: rest =>
+    match rename t a b with
+    | .ok t' => execAll t' rest
+    | .error _ => none
+
+/-- the decidable-by-running guard of the rollback theorem: every executed rename went onto a free name under which
+    nothing lives, and the source's parent directory is still there afterwards (all true when the pre-flight passed
+    on a well-formed tree) -/
+def revAlongB : Tree → List (Path × Path) → Bool
+  | _, [] => true
+  | t, (a, b) :: rest =>
+    !(a == b) && (lookup t b).isNone && t.all (fun e => !pre b e.1) &&
+    (match rename t a b with
+     | .ok t' => decide (parentOk t' a = .ok ()) && revAlongB t' rest
+     | .error _ => true)
+
+def RevAlong (t : Tree) (l : List (Path × Path)) : Prop := revAlongB t l = true
+
+theorem rollback_append (t : Tree) (l1 l2 : List (Path × Path)) (err : Option Errno) :
+    Apply.rollback t (l1 ++ l2) err = Apply.rollback (Apply.rollback t l1 err).1 l2 (Apply.rollback t l1 err).2 := by
+  induction l1 generalizing t err with
+  | nil => rfl
+  | cons x l1 ih =>
+    obtain ⟨f, to⟩ := x
+    simp only [List.cons_append, Apply.rollback]
+    cases rename t to f with
+    | ok t' => exact ih t' err
+    | error e => exact ih t _
+
+/-- rollback_restores_paths: reverting the renames AS THEY WERE EXECUTED, in reverse order, restores the tree exactly —
+    for every tree and every list of renames (nested directories included) that satisfies the guard -/
+theorem rollback_restores (l : List (Path × Path)) : ∀ (t tn : Tree), execAll t l = some tn → RevAlong t l →
+    Apply.rollback tn l.reverse none = (t, none) := by
+  induction l with
+  | nil => intro t tn h _; simp [execAll] at h; subst h; rfl
+  | cons x rest ih =>
+    intro t tn h hg
+    obtain ⟨a, b⟩ := x
+    unfold RevAlong revAlongB at hg
+    simp only [Bool.and_eq_true, Bool.not_eq_true', beq_eq_false_iff_ne, ne_eq, Option.isNone_iff_eq_none,
+      List.all_eq_true] at hg
+    obtain ⟨⟨⟨hab, hfree⟩, hunder⟩, hnext⟩ := hg
+    simp only [execAll] at h
+    cases hr : rename t a b with
+    | error e => rw [hr] at h; cases h
+    | ok t1 =>
+      rw [hr] at h
+      rw [hr] at hnext
+      simp only [Bool.and_eq_true, decide_eq_true_eq] at hnext
+      obtain ⟨hpar, hg1⟩ := hnext
+      have h1 := ih t1 tn h hg1
+      rw [List.reverse_cons, rollback_append, h1]
+      simp only [Apply.rollback]
+      rw [rename_inverse hr hab hfree (fun e he => by simpa using hunder e he) hpar]
 
 end ExecL
